@@ -70,6 +70,12 @@ CXX_ONLY_KINDS = {"ref_inout", "ref_out", "str_cref", "str_val", "str_cptr", "st
                   "str_ptr_inout", "vec_in", "vec_out", "vec_inout"}
 
 
+# callback signatures: declaration, what the library calls it with, result type, the value the harness callbacks return for that call
+# (vf_cb3: i -> 3*i+1 ; vf_cbd: x -> 2*x+0.25 ; vf_cbl: (i, x) -> 100*i + int(2*x))
+FNPTR_SIGS = {"i": {"decl": "int (*%s)(int)", "call": "3", "T": "int", "value": 10, "cb": "vf_cb3"},
+              "d": {"decl": "double (*%s)(double)", "call": "1.5", "T": "double", "value": 3.25, "cb": "vf_cbd"},
+              "l2": {"decl": "long (*%s)(int, double)", "call": "3, 2.5", "T": "long", "value": 305, "cb": "vf_cbl"}}
+
 # ------------------------------------------------------------------ value representation (shared by all logs)
 
 def wrap_int(v, T):
@@ -272,7 +278,7 @@ def _param_decl(p):
         return "int *%s +intent(out)+hidden" % n
     if k == "fnptr":
         # callbacks.rst: a function pointer argument (no +external: Shroud writes an abstract interface for it)
-        return "int (*%s)(int)" % n
+        return FNPTR_SIGS[p.get("sig", "i")]["decl"] % n
     if k == "vec_in":
         return "const std::vector<%s> &%s" % (T, n)
     if k == "vec_out":
@@ -476,8 +482,9 @@ def impl_function(f, lang, qual=""):
         if k in ("val", "implied"):
             lines.append("    %s vfD = vf_mix(vfD, %s);" % (log_scalar(T, n, n), h_expr(T, n)))
         elif k == "fnptr":
-            # the library calls the callback once with 3 and records what it returned (the drivers pass i -> 3*i+1)
-            lines.append('    { int vf_cbr = %s ? %s(3) : -1; vf_log_i("%s", (long long)vf_cbr, 1); vfD = vf_mix(vfD, vf_h_i((long long)vf_cbr)); }' % (n, n, n))
+            # the library calls the callback once with fixed arguments and records what it returned
+            sg = FNPTR_SIGS[p.get("sig", "i")]
+            lines.append('    { %s vf_cbr = %s(%s); %s vfD = vf_mix(vfD, %s); }' % (TYPES[sg["T"]]["c"], n, sg["call"], log_scalar(sg["T"], n, "vf_cbr"), h_expr(sg["T"], "vf_cbr")))
         elif k in ("ptr_in", "ptr_inout"):
             lines.append("    %s vfD = vf_mix(vfD, %s);" % (log_scalar(T, n, "*" + n), h_expr(T, "*" + n)))
         elif k == "ref_inout":
@@ -785,8 +792,9 @@ def model_call(f, args, this_serial=None):
             recv[n] = "i:%d" % v
             d = dmix(d, v & M64)
         elif k == "fnptr":
-            recv[n] = repr_scalar(10, "int")
-            d = dmix(d, h_scalar(10, "int"))
+            sg = FNPTR_SIGS[p.get("sig", "i")]
+            recv[n] = repr_scalar(sg["value"], sg["T"])
+            d = dmix(d, h_scalar(sg["value"], sg["T"]))
         elif k in ("val", "ptr_in", "ptr_inout", "ref_inout"):
             v = args[n]
             recv[n] = repr_scalar(v, T)
